@@ -16,19 +16,24 @@ import (
 // ---- instruction graph -----------------------------------------------------------
 
 type IG struct {
-	Fn    *ssa.Function
-	Fns   []*ssa.Function // Fn plus the single-call helpers inlined into the graph (igx)
-	Nodes []ssa.Instruction
-	Idx   map[ssa.Instruction]int
-	Succ  [][]int
-	Pred  [][]int
-	Exits []int // Return instructions (panics are not success exits)
-	Panic []int
+	Fn      *ssa.Function
+	Fns     []*ssa.Function             // Fn plus the single-call helpers inlined into the graph (igx)
+	Bind    map[ssa.Value]ssa.Value     // parameter of an inlined helper -> the argument at its (single) call site
+	Inlined map[*ssa.Call]*ssa.Function // call sites spliced into the graph
+	Nodes   []ssa.Instruction
+	Idx     map[ssa.Instruction]int
+	Succ    [][]int
+	Pred    [][]int
+	Exits   []int // Return instructions (panics are not success exits)
+	Panic   []int
 }
 
 type edge struct{ from, to int }
 
-func (p *Program) ig(fn *ssa.Function) *IG {
+func (p *Program) ig(fn *ssa.Function) *IG { return p.ig0(fn) }
+
+// ig0: the flow graph of fn alone.
+func (p *Program) ig0(fn *ssa.Function) *IG {
 	if g, ok := p.igCache[fn]; ok {
 		return g
 	}
@@ -915,9 +920,24 @@ func (p *Program) igx(fn *ssa.Function) *IG {
 	g.Succ = make([][]int, len(g.Nodes))
 	g.Pred = make([][]int, len(g.Nodes))
 	inlinedAt := map[*ssa.Call]*ssa.Function{}
+	g.Bind, g.Inlined = map[ssa.Value]ssa.Value{}, map[*ssa.Call]*ssa.Function{}
 	for y, c := range callSite {
 		if inSet[y] {
 			inlinedAt[c] = y
+			g.Inlined[c] = y
+			args := c.Call.Args
+			for pi, prm := range y.Params {
+				if pi < len(args) {
+					g.Bind[prm] = args[pi]
+				}
+			}
+			if mc, isMC := c.Call.Value.(*ssa.MakeClosure); isMC {
+				for fi, fv := range y.FreeVars {
+					if fi < len(mc.Bindings) {
+						g.Bind[fv] = mc.Bindings[fi]
+					}
+				}
+			}
 		}
 	}
 	for _, f := range fns {
@@ -930,14 +950,19 @@ func (p *Program) igx(fn *ssa.Function) *IG {
 					g.Succ[n] = append(g.Succ[n], first[y.Blocks[0]])
 					// returns of y continue after the call; boolean-constant returns are threaded into the caller's branch on the result
 					var ifi *ssa.If
+					resIdx := 0 // which result of the call the branch tests
 					pure := true
 					for _, later := range b.Instrs[i+1:] {
 						switch x := later.(type) {
 						case *ssa.If:
-							if fc, okf := condFact(x.Cond, true); okf && fc.Bool && fc.X == ssa.Value(c) {
-								ifi = x
+							if fc, okf := condFact(x.Cond, true); okf && (fc.Bool || fc.IsNil) {
+								if fc.X == ssa.Value(c) {
+									ifi = x
+								} else if ex, isEx := fc.X.(*ssa.Extract); isEx && ex.Tuple == ssa.Value(c) {
+									ifi, resIdx = x, ex.Index
+								}
 							}
-						case *ssa.UnOp, *ssa.BinOp, *ssa.Phi, *ssa.DebugRef:
+						case *ssa.UnOp, *ssa.BinOp, *ssa.Phi, *ssa.DebugRef, *ssa.Extract:
 						default:
 							pure = false
 						}
@@ -952,12 +977,24 @@ func (p *Program) igx(fn *ssa.Function) *IG {
 						}
 						rn := g.Idx[ret]
 						threaded := false
-						if ifi != nil && pure && len(ret.Results) == 1 {
-							if bv, isC := constBool(retOperand(ret, 0)); isC {
-								fc, _ := condFact(ifi.Cond, true)
-								takeTrue := (fc.Op == token.NEQ) == bv
+						if ifi != nil && pure && resIdx < len(ret.Results) {
+							fc, _ := condFact(ifi.Cond, true)
+							op := retOperand(ret, resIdx)
+							decided, holds := false, false // does the true-edge fact hold for this return?
+							if fc.Bool {
+								if bv, isC := constBool(op); isC {
+									decided, holds = true, (fc.Op == token.NEQ) == bv
+								}
+							} else if fc.IsNil {
+								if isNilConst(op) {
+									decided, holds = true, fc.Op == token.EQL
+								} else if p.nonNilValue(op, 0) {
+									decided, holds = true, fc.Op == token.NEQ
+								}
+							}
+							if decided {
 								k := 1
-								if takeTrue {
+								if holds {
 									k = 0
 								}
 								g.Succ[rn] = append(g.Succ[rn], first[threadJump(b, b.Succs[k])])
@@ -1119,4 +1156,97 @@ func (p *Program) eventNodes(g *IG, pred func(ssa.Instruction) bool) (must, may 
 		}
 	}
 	return
+}
+
+// res: v stripped, with parameters of inlined helpers replaced by the arguments at their call sites.
+func (g *IG) res(v ssa.Value) ssa.Value {
+	v = strip(v)
+	for i := 0; i < 4; i++ {
+		w, ok := g.Bind[v]
+		if !ok {
+			break
+		}
+		v = strip(w)
+	}
+	return v
+}
+
+// nonNilValue: v is certainly not nil — a fresh allocation, a non-nil interface conversion of one, or the result of a
+// module function all of whose returns are such values.
+func (p *Program) nonNilValue(v ssa.Value, depth int) bool {
+	if depth > 2 {
+		return false
+	}
+	switch x := v.(type) {
+	case *ssa.Alloc, *ssa.MakeClosure, *ssa.MakeMap, *ssa.MakeChan, *ssa.MakeSlice, *ssa.Function:
+		return true
+	case *ssa.MakeInterface:
+		if _, isPtr := x.X.Type().Underlying().(*types.Pointer); isPtr {
+			return p.nonNilValue(x.X, depth)
+		}
+		return true
+	case *ssa.ChangeInterface:
+		return p.nonNilValue(x.X, depth)
+	case *ssa.UnOp:
+		// sentinel: a package-level variable of the module assigned only by package initialisation (ErrorNotFound, …)
+		if gl, ok := x.X.(*ssa.Global); ok && x.Op == token.MUL && gl.Pkg != nil && strings.HasPrefix(gl.Pkg.Pkg.Path(), modPath) {
+			for _, ref := range p.globalStores(gl) {
+				if ref.Parent().Name() != "init" && !strings.HasPrefix(ref.Parent().Name(), "init#") {
+					return false
+				}
+			}
+			return true
+		}
+	case *ssa.Call:
+		y := x.Call.StaticCallee()
+		if y == nil || !p.inModule(y) || len(y.Blocks) == 0 || y.Signature.Results().Len() != 1 {
+			return false
+		}
+		n := 0
+		for _, b := range y.Blocks {
+			if ret, ok := b.Instrs[len(b.Instrs)-1].(*ssa.Return); ok {
+				n++
+				op := retOperand(ret, 0)
+				// "return e" of the receiver: non-nil when the receiver argument is
+				if len(y.Params) > 0 && y.Signature.Recv() != nil && strip(op) == ssa.Value(y.Params[0]) && len(x.Call.Args) > 0 {
+					if !p.nonNilValue(x.Call.Args[0], depth+1) {
+						return false
+					}
+					continue
+				}
+				if !p.nonNilValue(op, depth+1) {
+					return false
+				}
+			}
+		}
+		return n > 0
+	}
+	return false
+}
+
+// globalStores: the store instructions of the module that assign the package-level variable gl.
+func (p *Program) globalStores(gl *ssa.Global) []ssa.Instruction {
+	if p.gstores == nil {
+		p.gstores = map[*ssa.Global][]ssa.Instruction{}
+		for _, fn := range p.Mod {
+			for _, b := range fn.Blocks {
+				for _, in := range b.Instrs {
+					if st, ok := in.(*ssa.Store); ok {
+						if g2, ok := st.Addr.(*ssa.Global); ok {
+							p.gstores[g2] = append(p.gstores[g2], in)
+						}
+					}
+				}
+			}
+		}
+	}
+	return p.gstores[gl]
+}
+
+// withGraph makes g the context of provenance queries (origins): parameters of inlined helpers continue through their
+// arguments, results of inlined calls through the helper's return operands. Use: defer p.withGraph(g)().
+func (p *Program) withGraph(g *IG) func() {
+	old := p.ctxG
+	p.ctxG = g
+	return func() { p.ctxG = old }
 }
